@@ -164,9 +164,12 @@ def step (j : Json) : Json :=
     | [d, s, us] => Json.mkObj [("s", .str (String.ofList (tdStr ⟨d, s.toNat, us.toNat⟩)))]
     | _ => Json.mkObj [("bad", "td")]
   | "td_deser" =>
-    match tdDeser (getStr j "s").toList with
-    | .ok t => Json.mkObj [("ok", .arr #[intToJson t.days, intToJson t.secs, intToJson t.us])]
-    | .error e => errToJson e
+    -- through `RegisteredType.deserializer` (the registered-type branch of the adapter): declared exceptions become ValueError
+    match adaptReg (codecHandler tdStr tdDeser) false (.basic (getStr j "s").toList) with
+    | .ok (.inst t) => Json.mkObj [("ok", .arr #[intToJson t.days, intToJson t.secs, intToJson t.us])]
+    | .ok (.basic _) => Json.mkObj [("bad", "basic")]
+    | .error .valueError => errToJson .value
+    | .error .propagated => Json.mkObj [("err", "Other:propagated")]
   | "b64_enc" => Json.mkObj [("s", .str (String.ofList (b64encode ((intsOf j "b").map Int.toNat))))]
   | "b64_dec" =>
     match b64decode (getStr j "s").toList with
